@@ -38,8 +38,9 @@ claim("C06", "Lean 4 proofs of termination (potential argument) and genuine fixp
       "the scheduled calls do not leave, the loop converges within |U| - rows + N sweeps, N*eps > Phi+|U|; the reported amount of every call, "
       "quantifiers included, EQUALS the drop of the potential Phi), C06_fol_terminates_constants / _exists (the universe of all tuples over the "
       "constant list is closed under every call on a well-formed formula of any kind), C06_fol_returns_at_fixpoint (both halves chained). "
-      "The executed loop with the grounding-propagation layer (pInfer) equals fInfer when no partially quantified formula is an operand "
-      "(C06_pInfer_is_fInfer); with such operands termination rests on correspondence of sweep counts and the step cap.", "DESIGN.md §6 C06, §11.7")
+      "The EXECUTED loop with the grounding-propagation layer (pInfer) terminates as well (Lemmas/PendTerm.lean): C06_layer_terminates_constants "
+      "(partially quantified operands included, any pending groundings over the constants; pending work acts only by creating rows), "
+      "C06_layer_query_terminates (with a query: converges or leaves through the early exit).", "DESIGN.md §6 C06, §11.7")
 claim("C07", "Lean 4 proof of confluence by chaotic iteration over monotone inflationary un-arrested steps + multi-order differential runs",
       "Theorems C07_confluent (two arbitrary step lists that both end in an arrest-free common fixpoint end in the same state), "
       "C07_contradiction_invariant / C07_contradiction_iff (if one exhaustive schedule ends contradiction-free no schedule ever shows one; "
